@@ -248,10 +248,12 @@ def write_evidence(prop, tier, seed, mod, results, tv, wall, n_viol, known_hits)
         "violations": n_viol,
         "coverage": {
             "evaluations": max(n_queries, 1),
-            "distinct_nontrivial": sum(1 for v in wit.values() if v),
-            "rule": "one evaluation = one SMT query decided by z3 over all values of the symbolic inputs within the bounds; "
-                    "non-trivial = a distinct named coverage witness (situation the property is about) shown satisfiable "
-                    "under the preconditions of some case",
+            "distinct_nontrivial": len({r["name"] for r in results if r.get("n_queries", 0) > 0 and r["verdict"] in ("unsat", "sat")}),
+            "rule": "one evaluation = one SMT query decided by z3 over all values of the symbolic inputs within the bounds; a case (one "
+                    "configuration: function, dtype, mask kind, split, ...) is counted as distinct and non-trivial when it has a distinct "
+                    "name and the solver had to decide at least one query with symbolic inputs for it (cases whose assertion folded to a "
+                    "constant are not counted); 'witnesses' lists the named situations shown satisfiable under the preconditions",
+            "coverage_witnesses_sat": sum(1 for v in wit.values() if v),
             "samples": samples or [{"note": "no cases"}],
             "exhaustive": False,
             "cases": len(results),
